@@ -231,14 +231,22 @@ def c10(chk, thorough):
 def c15(chk, thorough):
     from . import guards, layout
     chk.explanation = (
-        'Decides the missing-value and table-layout clauses of C15: in R2/MAE/MSE/BIAS every element read and every counter '
-        'increment is control-dependent on "the truth element is not MISSING"; RMSE is sqrt(MSE) of its own arguments; the PLS '
-        'statistic tables read truth column j and prediction column q*lv+j and store cell (lv, j) (index-role typing). NOT '
-        'decided: any numeric identity (R2 <= 1, MAE <= RMSE, ROC monotonicity, Mann-Whitney equality, invariances).')
+        'Decides, in exact arithmetic, the formula clause and the missing-value and table-layout clauses of C15: (RF) R2, MSE, RMSE, MAE '
+        'and BIAS are abstracted to closed forms over sums taken over the non-missing truths (each accumulation loop contributes the sum '
+        'of its term, rewritten by linearity over basis sums so that algebraically equal one-pass/two-pass forms coincide; scalars are '
+        'composed symbolically; nothing is executed) and compared with the defining formula by polynomial normalisation; consequences '
+        'such as RMSE^2 = MSE, R2 = 1 for perfect prediction, R2 <= 1 and MAE <= RMSE then follow from the formulas. (G) every element '
+        'read, counter increment and count divisor is tied to "the truth element is not MISSING"; RMSE is sqrt(MSE) of its own arguments; '
+        '(LY) the PLS statistic tables read truth column j and prediction column q*lv+j and store cell (lv, j). NOT decided: '
+        'floating-point rounding; every ROC / precision-recall clause (monotonicity, Mann-Whitney equality, invariances).')
     chk.assumptions = ['ApproxEq/MISSING recognised structurally; role seeds of lsv/layout.py']
     prog = load_program(chk, ['statistic.c', 'pls.c', 'mlr.c'])
     guards.missing_guard(chk, prog, {'statistic.c': guards.STAT_FUNCS['statistic.c']})
     guards.rmse_reaches_mse(chk, prog)
+    from . import reduce
+    reduce.run(chk, prog)
+    chk.floor('RF.definition', 5)
+    chk.floor('RF.guard', 15)
     layout.run(chk, prog, {'pls.c': ['PLSRegressionStatistics', 'PLSDiscriminantAnalysisStatistics']})
     chk.floor('G.missing', 4)
     chk.floor('G.rmse', 1)
